@@ -114,9 +114,9 @@ PROPS["C08"] = {
 }
 PROPS["C13"] = {
     "level": "proof", "theorems": _GEN["C13"], "theorem_kinds": {},
-    "rule": "1..3 replica seeded histories (FIFO in 2/3 of the cases); snapshots of replica 0 at random points; after every later step every earlier snapshot is restored into a fresh document (encode_state_from_snapshot v1 and v2) and compared with the content recorded when it was taken; snapshot codec round trip v1/v2; a gc document must refuse. Non-trivial = at least two snapshots in the history",
+    "rule": "1..3 replica seeded histories (FIFO in 2/3 of the cases); snapshots of replica 0 at random points; after every later step every earlier snapshot is restored into a fresh document (encode_state_from_snapshot v1 and v2) and compared with the content recorded when it was taken; snapshot codec round trip v1/v2; a gc document must refuse; every snapshot is compared with the extracted transcription of ReadTxn::snapshot fed the store, every v1 restore with the transcription of encode_state_from_snapshot fed the store as it is at that later step (runner SNP), and the model's relation 'later store of the same replica' is evaluated on every (snapshot store, later store) pair; fixed input: a block list that ends at u32::MAX. Non-trivial = at least two snapshots in the history",
     "trusted_base": [_MODEL_NOTE, "content-level equality of the restored document relies on convergence (C01); the theorems give the integrated id set and the deletion flags"],
-    "modelled_not_verified": ["Store::write_blocks_to / ItemSlice::encode / ItemContent::encode_slice (block slicing is what the unit model abstracts away; covered by the correspondence)"],
+    "modelled_not_verified": ["ItemSlice::encode byte layout of one block (C09 tie)", "v2 restores (implementation's codec)", "the runner fills in parents the wire form omits before evaluating snp_extends_b"],
     "assumptions": ["a snapshot taken while the store has gaps cannot be exact with a state-vector shaped snapshot: known finding"],
 }
 
@@ -134,9 +134,9 @@ PROPS["C10"] = {
 }
 PROPS["C15"] = {
     "level": "proof", "theorems": _GEN["C15"], "theorem_kinds": {},
-    "rule": "seeded 2..3 replica histories with mixed gc settings and deletions (plain content, nested types, map overwrites, formatting); a gc twin and a no-gc twin are fed the same updates (v1/v2, possibly shuffled) and compared after EVERY delivery (public content, state vector, pending flag); forced gc at random points must not change content; a document rebuilt from the gc'ed replica's full state (v1, v2) equals it; every ordered pair of replicas with different gc settings is exchanged until nothing changes. Non-trivial = the history deleted something",
-    "trusted_base": [_MODEL_NOTE, "gc is modelled as a function on the unit-level document (contents of deleted items dropped, lists below deleted types removed); GCCollector / block compaction are not transcribed"],
-    "modelled_not_verified": ["GCCollector::collect", "DeleteSet::try_squash_with / squash_left_range_compaction", "ITEM_FLAG_KEEP bookkeeping of the undo manager (modelled as a predicate)"], "assumptions": [],
+    "rule": "seeded 2..3 replica histories with mixed gc settings and deletions (plain content, nested types, map overwrites, formatting); a gc twin and a no-gc twin are fed the same updates (v1/v2, possibly shuffled) and compared after EVERY delivery (public content, state vector, pending flag); forced gc at random points must not change content; a document rebuilt from the gc'ed replica's full state (v1, v2) equals it; every ordered pair of replicas with different gc settings is exchanged until nothing changes; a third twin without automatic collection on which TransactionMut::gc is forced with None / its own delete set / a foreign delete set / arbitrary ranges (unaligned, in holes, beyond the store, unknown client): a panic is a violation, content must not change, and the store afterwards is compared unit by unit and branch by branch with the extracted transcription of the collector (runner GCB run). Non-trivial = the history deleted something",
+    "trusted_base": [_MODEL_NOTE, "gc is modelled as a function on the unit-level document (contents of deleted items dropped, lists below deleted types removed) and, at block level, as the two-phase collector as written (coq/Crdt/GcBlocks.v)"],
+    "modelled_not_verified": ["the squash after collection (try_squash_with / squash_left): compared per unit only", "ITEM_FLAG_KEEP bookkeeping of the undo manager (a flag per item in the block model)"], "assumptions": [],
 }
 PROPS["C03"] = {
     "level": "proof", "theorems": _GEN["C03"], "theorem_kinds": {},
@@ -152,8 +152,8 @@ PROPS["C17"] = {
 }
 PROPS["C14"] = {
     "level": "proof", "theorems": _GEN["C14"], "theorem_kinds": {},
-    "rule": "2..3 replica seeded histories on the root text and root array (inserts, range inserts, deletes; deliveries in any order); sticky indexes created at random valid positions with both associations, serialised (v1 / v2 / JSON) and resolved on EVERY replica that knows the anchor after EVERY step; expected offset computed from the hook dump (number of live units left of the anchoring unit, +1 for Before on a live anchor); creation must pick the neighbouring unit as anchor and resolve to the creation index. Non-trivial = a history with at least one sticky index",
-    "trusted_base": [_MODEL_NOTE], "modelled_not_verified": ["Store::follow_redone (anchors re-created by redo)", "BlockIter::try_forward / rel"], "assumptions": ["UTF-16 offset kind"],
+    "rule": "2..3 replica seeded histories on the root text and root array (inserts, range inserts, deletes; deliveries in any order); sticky indexes created at random valid positions with both associations, serialised (v1 / v2 / JSON) and resolved on EVERY replica that knows the anchor after EVERY step; expected offset computed from the hook dump (number of live units left of the anchoring unit, +1 for Before on a live anchor); creation must pick the neighbouring unit as anchor and resolve to the creation index; after every step on every replica, for both root sequences, every index 0..len+1 and both associations: anchor and resolved offset vs. the extracted block-level transcription (runner STK all), a panic is a violation; every earlier anchor's offset vs. the transcription (STK off); half of the histories count text offsets in bytes. Non-trivial = a history with at least one sticky index",
+    "trusted_base": [_MODEL_NOTE], "modelled_not_verified": ["Store::follow_redone (anchors re-created by redo): identity in the block model", "move ranges (ContentMove) are out of scope of the block model"], "assumptions": [],
 }
 PROPS["C20"] = {
     "level": "proof", "theorems": _GEN["C20"], "theorem_kinds": {},
